@@ -105,6 +105,7 @@ def py_p(p):
     if k == 'PModEq': return lambda v, m=p[1], r=p[2]: fint(v) % m == r
     if k == 'PLt': return lambda v, c=p[1]: fint(v) < c
     if k == 'PEq': return lambda v, c=p[1]: fint(v) == c
+    if k == 'PIn': return lambda v, l=p[1]: fint(v) in l
     raise ValueError(p)
 
 
@@ -116,6 +117,7 @@ def coq_p(p):
     k = p[0]
     if k in ('PTrue', 'PFalse'): return k
     if k == 'PModEq': return f'(PModEq {z(p[1])} {z(p[2])})'
+    if k == 'PIn': return f'(PIn {coq_list([z(i) for i in p[1]])})'
     return f'({k} {z(p[1])})'
 
 
